@@ -100,6 +100,22 @@ def opCalib : P String := do
         let feas := s.feas labels (preds dl thrImpl)
         return s!"ok {Wire.render opt} {Wire.render got} {if feas then 1 else 0} {Wire.render b}"
 
+/-- C16: the implementation-layer model of the accuracy route (Float twin): chosen scan position and
+stored threshold -/
+def opCalibCode : P String := do
+  let n ← nat
+  let ds ← arr Float n
+  let ls ← intArr n
+  finish
+  match labelsOf ls with
+  | .error e => throw e
+  | .ok labels =>
+    let l := ds.toList.zip labels
+    let s := sortByDist l
+    match argmaxPos (cumCorrect s) (realisablePos s) s.length with
+    | none => return "ok none"
+    | some b => return s!"ok {b} {Wire.render (thrAtPos s b)} {cumCorrect s b}"
+
 def opValidateCalib : P String := do
   let strat ← next
   let rd : P (PyNum Rat) := do
@@ -448,6 +464,7 @@ def dispatch : P String := do
   | "wiring" => opWiring
   | "check_input" => opCheckInput
   | "calib" => opCalib
+  | "calib_code" => opCalibCode
   | "validate_calib" => opValidateCalib
   | _ => throw s!"unknown op {op}"
 
